@@ -49,7 +49,8 @@ ASSUMPTIONS = ['reference = io.BytesIO() / io.StringIO() (lines end at \\n only)
 SELFTEST_MUTANT = 'bytes-len-without-flush'
 REQUIRED_PROBES = ['rollover_mid_history', 'scheduler_rollover', 'mfr_read_crosses_member_boundary',
                    'mfr_sized_read_after_seek0', 'rollover_copy_failed_state_intact',
-                   'threads_with_private_files_rolled_over']
+                   'threads_with_private_files_rolled_over', 'writelines_argument_fails_part_way',
+                   'reader_of_the_other_mode_built_before']
 iou = None
 _REAL_OS = None
 
